@@ -122,3 +122,68 @@ def register(w):
         ensures=[("class_preserved_ints_exact", post_from_np)],
         raises=set(), ret=Enum("DataType"), props=["C05"], inline_callees=True,
     ))
+    register_pipeline(w)
+
+
+def register_pipeline(w):
+    """conversion_api.to_onnx: every pipeline stage (tracing, constant binding, lowering, finalisation) runs
+    with the JAX x64 flag equal to enable_double_precision, in the documented order."""
+    from specs import opaque
+    from specs.opaque import OPQ
+    opaque.install(w)
+    STAGES = ["_trace_to_jaxpr", "_create_ir_context", "_bind_closed_jaxpr_constants", "_bind_jaxpr_inputs", "_lower_jaxpr_equations", "_bind_jaxpr_outputs", "_build_and_finalize_ir_model"]
+
+    def cell(ex):
+        if "x64" not in ex.ghost:
+            ex.ghost["x64"] = z3.Bool("x64_at_entry")
+            ex.ghost["x64_0"] = ex.ghost["x64"]
+        return ex.ghost["x64"]
+
+    def stage(name):
+        def rec(c: Ctx):
+            c.ex.ghost.setdefault("stages", []).append((name, cell(c.ex)))
+            return z3.BoolVal(True)
+        return rec
+
+    for nm in STAGES:
+        w.add_contract(Contract(f"{MC}:{nm}", params={}, ret=Ref(OPQ), assumed=True, may_raise=["AnyException"],
+                                ensures=[("ghost_stage", stage(nm))], exc_ensures=[("ghost_stage", stage(nm))],
+                                note="pipeline stage: opaque here; what matters is under which x64 setting it runs"))
+
+    def force_cm(ex, c, bound, body_thunk):
+        old = cell(ex)
+        ex.ghost["x64"] = ex.truthy(bound["enable_double_precision"])
+        try:
+            body_thunk(NONE)
+        finally:
+            ex.ghost["x64"] = old  # contract of _force_jax_x64 (verified for all exits in C13): flag as before
+    fc = w.contracts.get(f"{MC}:_force_jax_x64")
+    if fc is not None:
+        fc.cm_contract = force_cm
+
+    def post_stages(c: Ctx):
+        st = list(c.ex.ghost.get("stages", []))
+        want = c.ex.truthy(c["enable_double_precision"])
+        names = [n for n, _ in st]
+        conj = [z3.BoolVal(names == STAGES)]
+        for n, flag in st:
+            conj.append(flag == want)
+        return z3.And(conj)
+
+    def exc_stages(c: Ctx):
+        st = list(c.ex.ghost.get("stages", []))
+        want = c.ex.truthy(c["enable_double_precision"])
+        names = [n for n, _ in st]
+        return z3.And([z3.BoolVal(names == STAGES[:len(names)])] + [flag == want for _, flag in st])
+
+    def post_flag(c: Ctx):
+        return cell(c.ex) == c.ex.ghost["x64_0"]
+
+    params = {k: Ref(OPQ) for k in ("fn", "inputs", "input_params", "record_primitive_calls_file", "inputs_as_nchw", "outputs_as_nchw", "input_names", "output_names", "strict_optimizer_failures")}
+    params.update({"model_name": Str, "opset": Int, "enable_double_precision": Bool, "protective_clone": Bool, "normalization_mode": Str})
+    w.add_contract(Contract(
+        f"{MC}:to_onnx", params=params, ghost_init=lambda ex, env: cell(ex),
+        ensures=[("every_stage_runs_under_the_requested_precision_in_order", post_stages), ("x64_flag_as_before", post_flag)],
+        exc_ensures=[("stages_so_far_ran_under_the_requested_precision", exc_stages), ("x64_flag_as_before", post_flag)],
+        ret=Ref(OPQ), props=["C09", "C13"], opaque_externals=True, witnesses=["C09_function_body_constants_follow_precision"],
+    ))
